@@ -1,6 +1,6 @@
 (** C10 — changing representation loses nothing: the obligations, written out in full. *)
 From Coq Require Import List NArith ZArith String.
-From SK Require Import lib.LGraph lib.StrJoin model.C10_Model model.C10_Text model.C10_Rxn model.C10_Dfs proof.C10_Dfs proof.C10_Rxn proof.C10_ImpH proof.C10_HRoundIts proof.C10_GmlEHFull proof.C10_ReindexEHFull proof.C10_Renumber proof.C10_G2MSpec proof.C10_MolMapped proof.C10_Text proof.C10_Proof proof.C10_Hydrogen proof.C10_Routes proof.C10_GmlWrite proof.C10_HRound proof.C10_Routes2 proof.C10_Reindex proof.C10_MolGraph proof.C10_Smart proof.C10_GmlEH proof.C10_Select proof.C10_MolOk proof.C10_Full proof.C10_Attrs proof.C10_Light proof.C10_ReindexEH.
+From SK Require Import lib.LGraph lib.StrJoin model.C10_Model model.C10_Text model.C10_Rxn model.C10_Dfs proof.C10_Dfs proof.C10_Rxn proof.C10_ImpH proof.C10_HRoundIts proof.C10_GmlEHFull proof.C10_ReindexEHFull proof.C10_Renumber proof.C10_G2MSpec proof.C10_MolMapped proof.C10_RenumberRec proof.C10_Text proof.C10_Proof proof.C10_Hydrogen proof.C10_Routes proof.C10_GmlWrite proof.C10_HRound proof.C10_Routes2 proof.C10_Reindex proof.C10_MolGraph proof.C10_Smart proof.C10_GmlEH proof.C10_Select proof.C10_MolOk proof.C10_Full proof.C10_Attrs proof.C10_Light proof.C10_ReindexEH.
 Import ListNotations.
 Local Open Scope Z_scope.
 
@@ -722,3 +722,26 @@ Theorem C10_mol_graph_roundtrip_mapped :
                    forall i j, bond_find i j bonds' = option_map bond_type (bond_find i j (snd m)).
 Proof. exact mol_graph_roundtrip_mapped. Qed.
 Print Assumptions C10_mol_graph_roundtrip_mapped.
+
+(** RENUMBERING THE ATOM MAPS IN THE REACTION STRING RENUMBERS THE RULE, from the RDKit records: mr, mp are the records of the two
+    sides (contract [rdmol_ok], every atom mapped with a positive number); [remap sg m] is the record of the same molecule with every
+    map number k written sg k (same atoms in the same order, same bonds — what substituting the numbers in the string gives), again
+    in the contract.  If both reactions are atom-balanced, the rule written for the renumbered reaction reads back as the rule of the
+    original with every atom n replaced by s n = sg n: same element, charges, (before, after) bonds; nothing else.  (Composes
+    C10_rule_renumbering with proof/C10_RenumberRec.v remap_renamed: the graphs of a remapped record are a renamed pair.) *)
+Theorem C10_rule_renumbering_records :
+  forall (sg : Z -> Z) (mr mp : rmol) (eo eo' : list (N * N)) (explicit_h : bool),
+    rdmol_ok mr = true -> rdmol_ok mp = true -> forallb pos_mapped (fst mr) = true -> forallb pos_mapped (fst mp) = true ->
+    rdmol_ok (remap sg mr) = true -> rdmol_ok (remap sg mp) = true ->
+    forallb pos_mapped (fst (remap sg mr)) = true -> forallb pos_mapped (fst (remap sg mp)) = true ->
+    let r := mol_to_graph mr true true in let p := mol_to_graph mp true true in
+    let r' := mol_to_graph (remap sg mr) true true in let p' := mol_to_graph (remap sg mp) true true in
+    balanced r p = true -> eo_covers r p eo = true -> balanced r' p' = true -> eo_covers r' p' eo' = true ->
+    let A := gml_to_its (smart_to_gml r p eo true false explicit_h) in
+    let A' := gml_to_its (smart_to_gml r' p' eo' true false explicit_h) in
+    let s := sN sg in
+    (forall k, has_node A' k = true <-> exists n, has_node A n = true /\ k = s n) /\
+    (forall n e q q', label A n = Some (gml_node n e q q') -> label A' (s n) = Some (gml_node (s n) e q q')) /\
+    (forall u v, has_node A u = true -> has_node A v = true -> adj A' (s u) (s v) = adj A u v).
+Proof. exact rule_renumbering_records. Qed.
+Print Assumptions C10_rule_renumbering_records.
